@@ -43,59 +43,62 @@ def run(ctx: Ctx) -> int:
 	design_cex = coded.invariant_violated + coded.action_property_violated
 	ctx.log(f'TLC: sound keys {sound.distinct} states OK; keys as coded: {coded.distinct} states, violated at design level: {design_cex or "nothing"}')
 
-	edges_res = tlc.run('MCTranp', 'Tranp_cache_edges4.cfg' if quick else 'Tranp_cache_edges6.cfg', workers=1, timeout=900)
-	edges = [json.loads(line) for line in edges_res.lines('EDGE ')]
-	if not edges:
-		raise Machinery('no edges emitted')
-	replay = replay_edges('Chain', edges)
-	replay['graph'] = 'Chain'
-	ctx.log(f'replayed {replay["edges"]} edges ({replay["stats"].get("runs", 0)} real runs, {replay["stats"].get("texts_compared", 0)} output texts compared); {len(replay["failures"])} discrepancies')
-	violations = collect(ctx, PROP, replay)
-	# the diamond a -> {b, c} -> d: two import paths to one module, a different target order
-	dsound = tlc.run('MCTranp', 'TranpD_cache_sound.cfg', workers=16, timeout=900)
-	if not dsound.ok:
-		raise Machinery(f'TLC: the sound-key model violates a C05 clause on the diamond graph: {dsound.out[-1500:]}')
-	dres = tlc.run('MCTranp', 'TranpD_cache_edges4.cfg' if quick else 'TranpD_cache_edges5.cfg', workers=1, timeout=900)
-	dedges = [json.loads(line) for line in dres.lines('EDGE ')]
-	dreplay = replay_edges('Diamond', dedges)
-	dreplay['graph'] = 'Diamond'
-	ctx.log(f'diamond graph: sound keys {dsound.distinct} states OK; replayed {dreplay["edges"]} edges ({dreplay["stats"].get("runs", 0)} real runs); {len(dreplay["failures"])} discrepancies')
-	seen = {v.key for v in violations}
-	violations += [v for v in collect(ctx, PROP, dreplay) if v.key not in seen]
-	# twins a -> {b, c}: the two imports are written from one family of contents, so two files can exchange their contents
-	wsound = tlc.run('MCTranp', 'TranpW_cache_sound.cfg', workers=16, timeout=900)
-	if not wsound.ok:
-		raise Machinery(f'TLC: the sound-key model violates a C05 clause on the twins graph: {wsound.out[-1500:]}')
-	twres = tlc.run('MCTranp', 'TranpW_cache_edges4.cfg' if quick else 'TranpW_cache_edges5.cfg', workers=1, timeout=900)
-	twedges = [json.loads(line) for line in twres.lines('EDGE ')]
-	twreplay = replay_edges('Twins', twedges)
-	twreplay['graph'] = 'Twins'
-	ctx.log(f'twins graph (contents exchanged between files): sound keys {wsound.distinct} states OK; replayed {twreplay["edges"]} edges ({twreplay["stats"].get("runs", 0)} real runs); {len(twreplay["failures"])} discrepancies')
-	seen = {v.key for v in violations}
-	violations += [v for v in collect(ctx, PROP, twreplay) if v.key not in seen]
-	# modification times that do not only grow (an edit may set a time the file had before), three different bodies
-	tsound = tlc.run('MCTranp', 'TranpT_cache_sound.cfg', workers=16, timeout=900)
-	if not tsound.ok:
-		raise Machinery(f'TLC: the sound-key model violates a C05 clause with returning modification times: {tsound.out[-1500:]}')
-	tpinned = tlc.run('MCTranp', 'TranpT_cache_pinned.cfg', workers=16, timeout=900)
-	if tpinned.ok:
-		raise Machinery('TLC: a tree cache keyed by modification time only should not be coherent when times return (vacuity guard)')
-	tres = tlc.run('MCTranp', 'TranpT_cache_edges4.cfg' if quick else 'TranpT_cache_edges5.cfg', workers=1, timeout=900)
-	tedges = [json.loads(line) for line in tres.lines('EDGE ')]
-	treplay = replay_edges('Pair', tedges)
-	treplay['graph'] = 'Pair'
-	ctx.log(f'returning modification times: sound keys {tsound.distinct} states OK; replayed {treplay["edges"]} edges ({treplay["stats"].get("runs", 0)} real runs); {len(treplay["failures"])} discrepancies')
-	seen = {v.key for v in violations}
-	violations += [v for v in collect(ctx, PROP, treplay) if v.key not in seen]
-	# long behaviours: random walks chosen by TLC (RandomElement), 13 operations each, replayed step by step
+	# the five replays are independent: they share one pool of worker processes (started here, before any thread)
+	from concurrent.futures import ProcessPoolExecutor, ThreadPoolExecutor
 	from harness.fs_replay import replay_walks
-	wres = tlc.run('TranpWalk', 'TranpWalk_cache.cfg', workers=1, timeout=900, seed=ctx.seed + 1)
-	wedges = [json.loads(line) for line in wres.lines('EDGE ')]
-	wreplay = replay_walks('Chain', wedges)
-	wreplay['graph'] = 'Chain'
+	pool = ProcessPoolExecutor(max_workers=16)
+	list(pool.map(int, range(64)))
+
+	def edge_stage(graph: str, sound_cfg: str | None, edges_cfg: str, pinned_cfg: str | None = None) -> dict:
+		snd = None
+		if sound_cfg:
+			snd = tlc.run('MCTranp', sound_cfg, workers=4, timeout=900)
+			if not snd.ok:
+				raise Machinery(f'TLC: the sound-key model violates a C05 clause on the {graph} graph: {snd.out[-1500:]}')
+		if pinned_cfg:
+			pin = tlc.run('MCTranp', pinned_cfg, workers=4, timeout=900)
+			if pin.ok:
+				raise Machinery('TLC: a tree cache keyed by modification time only should not be coherent when times return (vacuity guard)')
+		res = tlc.run('MCTranp', edges_cfg, workers=1, timeout=900)
+		es = [json.loads(line) for line in res.lines('EDGE ')]
+		if not es:
+			raise Machinery(f'no edges emitted by {edges_cfg}')
+		rep = replay_edges(graph, es, pool=pool)
+		rep['graph'] = graph
+		rep['sound'] = snd.distinct if snd else 0
+		rep['edge_list'] = es
+		return rep
+
+	def walk_stage() -> dict:
+		wres = tlc.run('TranpWalk', 'TranpWalk_cache.cfg', workers=1, timeout=900, seed=ctx.seed + 1)
+		rep = replay_walks('Chain', [json.loads(line) for line in wres.lines('EDGE ')], pool=pool)
+		rep['graph'] = 'Chain'
+		return rep
+
+	try:
+		with ThreadPoolExecutor(max_workers=5) as tex:
+			f_chain = tex.submit(edge_stage, 'Chain', None, 'Tranp_cache_edges4.cfg' if quick else 'Tranp_cache_edges6.cfg')
+			# the diamond a -> {b, c} -> d: two import paths to one module, a different target order
+			f_diamond = tex.submit(edge_stage, 'Diamond', 'TranpD_cache_sound.cfg', 'TranpD_cache_edges4.cfg' if quick else 'TranpD_cache_edges5.cfg')
+			# twins a -> {b, c}: the two imports are written from one family of contents, so two files can exchange their contents
+			f_twins = tex.submit(edge_stage, 'Twins', 'TranpW_cache_sound.cfg', 'TranpW_cache_edges4.cfg' if quick else 'TranpW_cache_edges5.cfg')
+			# modification times that do not only grow (an edit may set a time the file had before), three different bodies
+			f_pair = tex.submit(edge_stage, 'Pair', 'TranpT_cache_sound.cfg', 'TranpT_cache_edges4.cfg' if quick else 'TranpT_cache_edges5.cfg', 'TranpT_cache_pinned.cfg')
+			# long behaviours: random walks chosen by TLC (RandomElement), 13 operations each, replayed step by step
+			f_walk = tex.submit(walk_stage)
+			replay, dreplay, twreplay, treplay, wreplay = f_chain.result(), f_diamond.result(), f_twins.result(), f_pair.result(), f_walk.result()
+	finally:
+		pool.shutdown()
+	edges = replay['edge_list']
+	ctx.log(f'replayed {replay["edges"]} edges ({replay["stats"].get("runs", 0)} real runs, {replay["stats"].get("texts_compared", 0)} output texts compared); {len(replay["failures"])} discrepancies')
+	ctx.log(f'diamond graph: sound keys {dreplay["sound"]} states OK; replayed {dreplay["edges"]} edges ({dreplay["stats"].get("runs", 0)} real runs); {len(dreplay["failures"])} discrepancies')
+	ctx.log(f'twins graph (contents exchanged between files): sound keys {twreplay["sound"]} states OK; replayed {twreplay["edges"]} edges ({twreplay["stats"].get("runs", 0)} real runs); {len(twreplay["failures"])} discrepancies')
+	ctx.log(f'returning modification times: sound keys {treplay["sound"]} states OK; replayed {treplay["edges"]} edges ({treplay["stats"].get("runs", 0)} real runs); {len(treplay["failures"])} discrepancies')
 	ctx.log(f'random walks: {wreplay["jobs"]} behaviours of up to {wreplay["longest"]} operations from TranpWalk.tla replayed ({wreplay["stats"].get("runs", 0)} real runs); {len(wreplay["failures"])} discrepancies')
-	seen = {v.key for v in violations}
-	violations += [v for v in collect(ctx, PROP, wreplay) if v.key not in seen]
+	violations = []
+	for rep in (replay, dreplay, twreplay, treplay, wreplay):
+		seen = {v.key for v in violations}
+		violations += [v for v in collect(ctx, PROP, rep) if v.key not in seen]
 
 	coverage = {
 		'states': sound.distinct + coded.distinct,
